@@ -499,28 +499,45 @@ func classify(c *Case, input any) string {
 		}
 		return false
 	}
-	overlap, slice := false, false
-	for i := 0; i < len(paths); i++ {
-		for j := i + 1; j < len(paths); j++ {
-			if mayPrefix(paths[i], paths[j]) || mayPrefix(paths[j], paths[i]) {
-				overlap = true
-				if hasSlice(paths[i]) || hasSlice(paths[j]) {
-					slice = true
-				}
+	// the base value the paths refer to
+	base := input
+	if c.Pre != "" {
+		if bc, err := compile(c.Pre + "."); err == nil {
+			if b, _ := runAll(bc, input); len(b) == 1 && !b[0].isErr {
+				base = b[0].v
 			}
 		}
 	}
-	if !overlap {
-		// a single slice path followed by an index beyond the slice also needs an allocated parent,
-		// which only an earlier path of the same reduction can create: not in the family
-		return ""
+	for _, q := range paths {
+		if throughString(base, q) {
+			return "D10"
+		}
+	}
+	_ = hasSlice
+	sliceHazard, embedHazard := false, false
+	for j, qj := range paths {
+		for i, qi := range paths {
+			if i == j {
+				continue
+			}
+			// the array sliced by q_j at position k has been copied into an allocated array by q_i
+			for k, comp := range qj {
+				if _, ok := comp.(map[string]any); ok && mayPrefix(qj[:k], qi) {
+					sliceHazard = true
+				}
+			}
+			// q_j reads a container that q_i has made allocated (q_j is an ancestor-or-self of q_i)
+			if mayPrefix(qj, qi) {
+				embedHazard = true
+			}
+		}
 	}
 	switch {
-	case slice && c.ScalarF:
+	case sliceHazard && c.ScalarF:
 		return "D4"
-	case slice:
+	case sliceHazard:
 		return "D5"
-	case !c.ScalarF:
+	case embedHazard && !c.ScalarF:
 		return "D9"
 	}
 	return ""
